@@ -342,6 +342,8 @@ class Interp:
             return v.a_truth(self)
         if isinstance(v, (Ch, AObj, AFunc, AClass, AModule)):
             return True
+        if isinstance(v, Opaque) and getattr(v, "nonnull", False):
+            return True
         if isinstance(v, Opaque):
             return self.fork("truth(%s)" % (short(node) if node is not None else v.tag))
         raise CannotDecide("truth of %r" % (v,))
@@ -1010,6 +1012,8 @@ class Interp:
             for c in self.repo.mro(v.ci):
                 if name in c.attrs:
                     return self.eval(c.attrs[name], Frame(None, {}, mod=c.module))
+        if isinstance(v, ABuiltin) and v.name == "ext:os" and name == "linesep":
+            return "\n"
         if isinstance(v, ABuiltin) and v.name.startswith("ext:"):
             return ABuiltin(v.name + "." + name)
         if isinstance(v, ABuiltin) and v.name == "str" and name in ("lower", "upper"):
@@ -1207,6 +1211,10 @@ class Interp:
         if isinstance(recv, Opaque):
             self.events.append(("method", "?." + name, args, node))
             return Opaque("method:%s" % name, [recv] + list(args))
+        if isinstance(recv, (list, dict, tuple, str, int, float, bytes, set)) and not hasattr(type(recv), name):
+            raise RaiseEx("AttributeError", node)
+        if isinstance(recv, AObj) and recv.cls is not None and self.repo.find_method(recv.cls, name) is None and name not in recv.attrs:
+            raise RaiseEx("AttributeError", node)
         raise CannotDecide("method %s on %r" % (name, recv))
 
     def str_method(self, recv, name, args, node):
@@ -1314,6 +1322,14 @@ class Interp:
             args = [self.iterate(a, node) if (isinstance(a, AObj) and a.cls is not None and (self.repo.find_method(a.cls, "__getitem__") or self.repo.find_method(a.cls, "__iter__"))) else a for a in args]
         if name == "object.__init__":
             return None
+        if name in ("ext:six.iteritems", "iteritems") and args and isinstance(args[0], dict):
+            return [tuple(kv) for kv in args[0].items()]
+        if name in ("ext:six.itervalues", "itervalues") and args and isinstance(args[0], dict):
+            return list(args[0].values())
+        if name in ("ext:six.iterkeys", "iterkeys") and args and isinstance(args[0], dict):
+            return list(args[0].keys())
+        if name in ("int", "float") and args and isinstance(args[0], (list, dict, tuple)) or (name in ("int", "float") and args and args[0] is None):
+            raise RaiseEx("TypeError", node)
         if name in ("ext:fractions.Fraction", "Fraction") and args and all(isinstance(a, (int, float, str, _Fraction)) and not isinstance(a, bool) for a in args):
             try:
                 return _Fraction(*args)
@@ -1386,6 +1402,8 @@ class Interp:
                 return _norm_lin(total)
             return Opaque("len", args)
         if name == "range":
+            if any(isinstance(a, float) for a in args):
+                raise RaiseEx("TypeError", node)  # 'float' object cannot be interpreted as an integer
             if all(isinstance(a, int) for a in args):
                 return list(range(*args))
             return Opaque("range", args)
